@@ -10,6 +10,7 @@
 -/
 import GoSecs.Lemmas.RouterLedger
 import GoSecs.Gen.Facts
+import GoSecs.Lemmas.Secs1TransportCount
 
 namespace GoSecs.Props.C20
 open GoSecs GoSecs.Router
@@ -156,3 +157,207 @@ example : Reachable (run init sampleTrace) ∧ (run init sampleTrace).m.inflight
   refine ⟨⟨_, rfl⟩, by decide, by decide, by decide, by decide, by decide, by decide⟩
 
 end GoSecs.Props.C20
+
+/-! # SECS-I transport
+
+  The same conservation clauses on SECS-I connections, over GoSecs/Model/Secs1Transport.lean (see Props/C09.lean, section
+  "SECS-I transport"); invariants GoSecs/Lemmas/Secs1TransportCount.lean.  `Cfg.m` additionally carries the secs1 block counters
+  (BlockSendCount / BlockRecvCount / BlockRetryCount / BlockSendFailedCount).  The exactly-once reassembly of messages under line
+  faults (a retransmitted / duplicated block is dropped by the assembler) is C17 / C18; here a received block enters with the effect
+  `Asm` its `accept` call had, and only an effect that completes a message reaches the receive chokepoint. -/
+namespace GoSecs.Props.C20.Secs1
+open GoSecs GoSecs.S1T
+open GoSecs.Router (upd upd_same upd_other b2n)
+
+/-- `writeFrame` got nil from `transport.Write` and has returned: the call is counted as sent -/
+def wroteOk (w : Sender) : Bool := decide (w.wres = some .ok) && decide (10 ≤ w.pc.rank)
+
+/-- **In-flight gauge = number of W-bit senders between "Write returned nil" and "deferred decrement ran"**. -/
+theorem inflight_eq_waiting_senders (c : Cfg) (hr : Reachable c) :
+    c.m.inflight = ((c.started.filter (fun i => (c.s i).inflight)).length : Int) := by
+  have := (cinv_reachable hr).ledger.inflight
+  rw [this, sumOver, sum_b2n]
+
+theorem inflight_nonneg (c : Cfg) (hr : Reachable c) : 0 ≤ c.m.inflight := by
+  rw [inflight_eq_waiting_senders c hr]; omega
+
+/-- zero at every quiescent point — also after any number of generations ended under pending sends -/
+theorem inflight_zero_at_quiescence (c : Cfg) (hr : Reachable c) (hq : ∀ i, i ∈ c.started → (c.s i).pc = .done ∨ (c.s i).pc = .queued) :
+    c.m.inflight = 0 := by
+  rw [inflight_eq_waiting_senders c hr]
+  have : c.started.filter (fun i => (c.s i).inflight) = [] := by
+    rw [List.filter_eq_nil_iff]
+    intro i hi
+    rcases hq i hi with h | h <;> simp [Sender.inflight, h]
+  simp [this]
+
+/-- the step on the `genDone` path: a W-bit sender released by the teardown broadcast never incremented the gauge, one released
+    from the reply wait decrements it exactly once -/
+theorem inflight_untouched_on_genDone_path (c : Cfg) (i : Nat) :
+    (apply c (.bail i)).m.inflight = c.m.inflight ∧ (apply c (.unlock i)).m.inflight = c.m.inflight ∧
+    (apply c (.decide i .closed)).m.inflight = c.m.inflight ∧ (apply c (.decInflight i)).m.inflight = c.m.inflight - 1 := by
+  simp [apply, setS, setG]
+
+/-- **DataMsgSendCount = number of send calls whose `transport.Write` returned nil** (one per message, however many blocks and
+    transmission attempts it took). -/
+theorem sent_eq_writes_returned_ok (c : Cfg) (hr : Reachable c) : c.m.sent = (c.started.filter (fun i => wroteOk (c.s i))).length := by
+  have h := cinv_reachable hr
+  have hs : (c.m.sent : Int) = (sumOver c (·.dSent) : Int) := h.ledger.sent
+  have : sumOver c (·.dSent) = sumOver c (fun w => b2n (wroteOk w)) := by
+    unfold sumOver
+    congr 1
+    apply List.map_congr_left
+    intro j _
+    exact (h.scnt j).2.2.1
+  rw [this, sumOver, sum_b2n] at hs
+  exact_mod_cast hs
+
+/-- **Every counted message was completely transmitted, each block ACKed exactly once, on the socket of the generation the call
+    pinned**: the engine reported success, the number of ACKed transmissions of this request on the wire log is exactly its number
+    of blocks, and all of its transmissions went out on that one socket. -/
+theorem counted_send_fully_acked_once (c : Cfg) (hr : Reachable c) (i : Nat) (h : wroteOk (c.s i) = true) :
+    (c.s i).done = some .ok ∧ ackedCount i c.wire = (c.s i).nblk ∧ ∀ ev, ev ∈ c.wire → ev.src = i → ev.sock = (c.s i).ep := by
+  have hc := cinv_reachable hr
+  simp only [wroteOk, Bool.and_eq_true, decide_eq_true_eq] at h
+  have hd : (c.s i).done = some .ok := (hc.scnt i).2.2.2.2.1 .ok h.1 (by simp) (by simp)
+  refine ⟨hd, by rw [hc.log.ackedWire i, (hc.ack i).2 hd], fun ev hev hs => ?_⟩
+  have := (hc.wire ev hev).1
+  rw [hs] at this
+  exact ((hc.sloc i).2.1 ev.sock this).symm
+
+/-- **Nothing is counted twice when a block is retransmitted**: a call contributes at most 1 to DataMsgSendCount whatever the number
+    of its transmission attempts on the wire; retransmissions are what BlockRetryCount counts, ACKed transmissions what
+    BlockSendCount counts (= the sum of the per-request ACK counts), and together they are all the attempts on the wire. -/
+theorem retransmission_not_counted_twice (c : Cfg) (hr : Reachable c) :
+    (∀ i, (c.s i).dSent ≤ 1) ∧ c.m.blockSend = sumOver c (·.acked) ∧ c.m.blockSend = (c.wire.filter (·.acked)).length ∧
+    c.m.blockRetry = (c.wire.filter (fun ev => !ev.acked)).length ∧ c.m.blockSend + c.m.blockRetry = c.wire.length := by
+  have hc := cinv_reachable hr
+  refine ⟨fun i => ?_, by exact_mod_cast hc.ledger.blockSend, hc.log.blockSend, hc.log.blockRetry, ?_⟩
+  · rw [(hc.scnt i).2.2.1]; unfold b2n; split <;> omega
+  · rw [hc.log.blockSend, hc.log.blockRetry]
+    induction c.wire with
+    | nil => rfl
+    | cons ev l ih => cases hev : ev.acked <;> simp [hev] <;> omega
+
+/-- **DataMsgRecvCount = complete messages delivered to the core**; BlockRecvCount = blocks received and ACKed. -/
+theorem recv_eq_delivered_messages (c : Cfg) (hr : Reachable c) : c.m.recv = c.deliv.length ∧ c.m.blockRecv = c.rxlog.length :=
+  ⟨(cinv_reachable hr).log.recv, (cinv_reachable hr).log.blockRecv⟩
+
+/-- step form: a received block bumps DataMsgRecvCount exactly when it completes a message — **per message, not per block**: a
+    duplicate / misdirected / out-of-sequence block (dropped), one that only discards a partial, a first or middle block of a
+    multi-block message never count; every ACKed block bumps BlockRecvCount. -/
+theorem recv_counts_messages_not_blocks (c : Cfg) (g : Nat) (x : Asm) :
+    (apply c (.rx g x)).m.recv = c.m.recv + b2n (asmStep (c.g g).part g x).2.isSome ∧
+    (apply c (.rx g x)).m.blockRecv = c.m.blockRecv + 1 ∧
+    (x = .drop ∨ x = .discard ∨ x = .first false ∨ x = .cont false → (apply c (.rx g x)).m.recv = c.m.recv) := by
+  refine ⟨rfl, rfl, ?_⟩
+  rintro (rfl | rfl | rfl | rfl) <;> simp only [apply, setG, asmStep] <;> (try (cases (c.g g).part <;> simp [b2n])) <;> simp [b2n]
+
+/-- The documented counter effect of a synchronous send (W-bit or not), by outcome. -/
+structure Deltas (w : Sender) (o : Outcome) : Prop where
+  /-- DataMsgErrCount: +1 exactly for a T3 expiry, an exhausted retry limit (ErrSendFailed) or a write error on the socket -/
+  err : w.dErr = b2n (o = .timeout || o = .sendFailed || o = .ioErr)
+  /-- DataMsgDropNotSelectedCount: +1 exactly for a refused send -/
+  drop : w.dDrop = b2n (o = .notSelected)
+  /-- AsyncSendErrCount: untouched -/
+  asyncErr : w.dAsyncErr = 0
+  /-- DataMsgSendCount: +1 exactly when Write returned nil -/
+  sent : w.dSent = b2n (wroteOk w)
+  /-- ... which is the case for a reply, a T3 expiry, a non-W send that returned nil, -/
+  sentYes : o = .reply ∨ o = .timeout ∨ o = .sent → wroteOk w = true
+  /-- ... and not for a refusal, a failed or aborted line transaction -/
+  sentNo : o = .notOpen ∨ o = .notSelected ∨ o = .sendFailed ∨ o = .aborted ∨ o = .ioErr → wroteOk w = false
+
+/-- **Each outcome changes exactly its documented counters** (per call; in particular a send aborted by the generation's teardown —
+    connection-closed from either select of Write, or the engine's context error — changes none). -/
+theorem outcome_counter_deltas (c : Cfg) (hr : Reachable c) (i : Nat) (o : Outcome) (hk : (c.s i).kind ≠ .async)
+    (hp : (c.s i).pc = .done) (h : (c.s i).out = some o) : Deltas (c.s i) o := by
+  have hc := cinv_reachable hr
+  have h1 := hc.scnt i
+  have h2 := hc.sout i
+  generalize c.s i = w at *
+  clear hc hr
+  rec_cases w
+  subst hp
+  subst h
+  simp only [SCnt, SOut, Sender.wcounted] at h1 h2
+  cases kind <;> (try exact absurd rfl hk) <;> cases wres <;> (try (rename_i r; cases r)) <;>
+    simp_all [Pc.rank, b2n, WRes.counted, WRes.outcome] <;>
+    (constructor <;> simp_all [wroteOk, Pc.rank, b2n] <;> grind)
+
+/-- ... and the counters are exactly the sums of the per-call contributions: nothing else moves them -/
+theorem counters_are_sums (c : Cfg) (hr : Reachable c) :
+    c.m.sent = sumOver c (·.dSent) ∧ c.m.err = sumOver c (·.dErr) ∧ c.m.drop = sumOver c (·.dDrop) ∧
+    c.m.asyncErr = sumOver c (·.dAsyncErr) := by
+  have l := (cinv_reachable hr).ledger
+  exact ⟨by exact_mod_cast l.sent, by exact_mod_cast l.err, by exact_mod_cast l.drop, by exact_mod_cast l.asyncErr⟩
+
+/-- a queued fire-and-forget message: written by the drain goroutine it counts as sent when Write returned nil, else as ONE async send
+    error (whatever the reason: refused, connection-closed, failed line transaction) and never as a data-message error -/
+theorem async_send_counters (c : Cfg) (hr : Reachable c) (i : Nat) (hk : (c.s i).kind = .async) (hp : (c.s i).pc = .done) :
+    (c.s i).dErr = 0 ∧ (c.s i).dSent = b2n (wroteOk (c.s i)) ∧
+    (c.s i).dAsyncErr = b2n ((c.s i).wres.isSome && decide ((c.s i).wres ≠ some .ok)) := by
+  have hc := cinv_reachable hr
+  have h1 := hc.scnt i
+  generalize c.s i = w at *
+  clear hc hr
+  rec_cases w
+  subst hp; subst hk
+  simp only [SCnt, Sender.wcounted] at h1
+  simp only [wroteOk]
+  cases wres <;> (try (rename_i r; cases r)) <;> simp_all [Pc.rank, b2n, WRes.counted] <;> grind
+
+/-- **What DataMsgSendCount can miss** (the exact gap to "messages the peer received"): a request the engine completed — every block
+    ACKed — whose `Write` nevertheless did not return nil.  That happens only through the `genDone` branch of Write's result select
+    (both channels ready: the engine's report and the teardown broadcast), i.e. only on a generation whose teardown broadcast is
+    closed; the call then returns connection-closed and counts nothing.  On a live generation every completed request is counted. -/
+theorem acked_but_uncounted_only_at_generation_end (c : Cfg) (hr : Reachable c) (i : Nat) (hd : (c.s i).done = some .ok)
+    (hp : (c.s i).pc = .done) (hn : wroteOk (c.s i) = false) :
+    (c.s i).wres = some .closed ∧ (c.g (c.s i).ep).genDone = true := by
+  have hc := cinv_reachable hr
+  have h1 := hc.scnt i
+  have h2 := hc.sout i
+  have h3 := hc.bail i
+  have h4 := hc.sloc i
+  obtain ⟨g, hg⟩ := Option.isSome_iff_exists.mp (h3.2 (by simp [hd]))
+  have hge := h4.2.1 g hg
+  have hb := h3.1 g hg
+  rw [← hge] at hb
+  generalize (c.g (c.s i).ep).genDone = gd at *
+  generalize c.s i = w at *
+  clear hc hr h3 h4
+  rec_cases w
+  subst hp
+  simp only [SCnt, SOut, Sender.wcounted, wroteOk] at *
+  cases wres <;> (try (rename_i r; cases r)) <;> simp_all [Pc.rank, b2n] <;> grind
+
+/-- the gap is real in the model: a single-block message completely ACKed, then the generation torn down before the sender took the
+    engine's report; the sender takes the `genDone` branch: connection-closed, nothing counted, one ACKed block on the wire -/
+def gapTrace : List Action :=
+  [.publish, .connUp, .setSelected true, .spawn 0, .begin 0 .sync 1, .pin 0, .gate 0, .lock 0, .check 0, .load 0, .take 0,
+   .xmit 0 true, .finish 0 .ok, .setSelected false, .cancel 0, .stopSeal 0, .stopDone 0, .bail 0, .unlock 0]
+
+set_option maxRecDepth 16000 in
+theorem counterexample_acked_message_uncounted_at_generation_end :
+    ∃ c, Reachable c ∧ (c.s 0).done = some .ok ∧ (c.s 0).out = some .closed ∧ c.m.sent = 0 ∧ c.wire = [⟨0, 0, true⟩] :=
+  ⟨run init gapTrace, ⟨_, rfl⟩, by decide, by decide, by decide, by decide⟩
+
+/-! ## Non-vacuity: a two-block send with one retransmission, a reply wait that times out, a failed line transaction, a two-block
+    inbound message with a duplicate block in between (one delivery), an async send refused by the B2 gate -/
+def sampleTrace : List Action :=
+  [.publish, .connUp, .setSelected true, .spawn 0, .begin 0 .sync 2, .begin 1 .sync 1, .begin 2 .async 1,
+   .pin 0, .gate 0, .lock 0, .check 0, .load 0, .take 0, .xmit 0 true, .xmit 0 false, .xmit 0 true, .finish 0 .ok, .result 0,
+   .unlock 0, .incInflight 0,
+   .rx 0 (.first false), .rx 0 .drop, .rx 0 (.cont true), .ret 0,
+   .pin 1, .gate 1, .lock 1, .check 1, .load 1, .take 1, .xmit 0 false, .finish 0 .sendFailed, .result 1, .unlock 1,
+   .pin 2, .gate 2, .enqueue 2 .recv, .decide 0 .timer, .setSelected false, .lock 2, .check 2, .unlock 2]
+
+set_option maxRecDepth 16000 in
+example : Reachable (run init sampleTrace) ∧ (run init sampleTrace).m.sent = 1 ∧ (run init sampleTrace).m.recv = 1 ∧
+    (run init sampleTrace).m.blockRecv = 3 ∧ (run init sampleTrace).m.inflight = 1 ∧ (run init sampleTrace).m.err = 2 ∧
+    (run init sampleTrace).m.drop = 1 ∧ (run init sampleTrace).m.asyncErr = 1 ∧ (run init sampleTrace).m.blockSend = 2 ∧
+    (run init sampleTrace).m.blockRetry = 2 ∧ (run init sampleTrace).m.blockSendFailed = 1 ∧
+    ((run init sampleTrace).s 1).out = some .sendFailed := by
+  refine ⟨⟨_, rfl⟩, by decide, by decide, by decide, by decide, by decide, by decide, by decide, by decide, by decide, by decide, by decide⟩
+
+end GoSecs.Props.C20.Secs1
